@@ -695,6 +695,9 @@ func (fc *followerController) handleSnapshot(stream proto.OxiaLogReplication_Sen
 		return
 	}
 
+	// The new database starts with the default setting: restore the one of the current term
+	newDb.EnableNotifications(fc.termOptions.NotificationsEnabled)
+
 	// The new term must be persisted, to avoid rolling it back
 	if err = newDb.UpdateTerm(fc.term, fc.termOptions); err != nil {
 		fc.closeStreamNoMutex(errors.Wrap(err, "Failed to update term in db"))
